@@ -165,7 +165,8 @@ def one(ctx, rng, xr, frequency, direction, construct_partition):
         rdm, rsp = measure(ref, th, dd)
         zone = "resolved" if (dd <= sgv[k] / 2 and sgv[k] <= 50) else "unresolved"
         mk = "dm=%s|nd=%d|%s" % (dmode, nd, zone)
-        g1 = circ_diff(mdm[k], rdm) <= 1e-7 and abs(msp[k] - rsp) <= 1e-6 * max(rsp, 1)
+        # spreads at the rounding floor (all energy in one bin): sqrt(2(1-R)) with 1-R ~ 1e-16 is ~1e-6 deg
+        g1 = circ_diff(mdm[k], rdm) <= 1e-7 and abs(msp[k] - rsp) <= 1e-6 * max(rsp, 1) + 1e-5
         if g1:
             rec.ok("measured_equals_sampled_ideal", mk)
         else:
